@@ -95,4 +95,6 @@ def add(run, tier, positions=False):
     _fo(run, _cf.C15, 'C15')
     if positions:
         import contracts.lexer as cl
-        verify_functions(run, cl.token_bookkeeping(lexmod), {}, {}, tier=tier)
+        # column arithmetic of the lexer (lookup_colno is what every node position is computed with) and the token bookkeeping
+        lcs, _, _ = cl.build(lexmod)
+        verify_functions(run, lcs, dict((c_.qualname, c_) for c_ in lcs), {}, tier=tier)
